@@ -446,7 +446,11 @@ func (rd *remoteDelivery) Close() error {
 		rd.rt.limits.ReleaseDest(conn.domain)
 		conn.transactions++
 
-		if !conn.Usable() {
+		// Connections of a delivery that ran with security policies disabled
+		// (TLS-Required: No) were not checked, other messages must not reuse them.
+		unchecked := len(rd.policies) != len(rd.rt.policies)
+
+		if !conn.Usable() || unchecked {
 			rd.Log.Debugf("disconnected %v from %s (errored=%v,transactions=%v,disconnected before=%v)",
 				conn.LocalAddr(), conn.ServerName(), conn.errored, conn.transactions, conn.C.Client() == nil)
 			conn.Close()
